@@ -545,7 +545,7 @@ func init() {
 			inspect(s.Decl.Body, func(nd ast.Node) bool {
 				if is, ok := nd.(*ast.IfStmt); ok {
 					// found == len(offsets)-1 in any arrangement: lhs - rhs is found - len(offsets) + 1
-					if b, ok := ast.Unparen(is.Cond).(*ast.BinaryExpr); ok && (b.Op == token.EQL || b.Op == token.GEQ) && found != nil {
+					if b, ok := ast.Unparen(is.Cond).(*ast.BinaryExpr); ok && (b.Op == token.EQL || b.Op == token.GEQ || b.Op == token.NEQ || b.Op == token.LSS) && found != nil {
 						lx, ok1 := linearOf(si, s.Decl.Body, b.X)
 						ly, ok2 := linearOf(si, s.Decl.Body, b.Y)
 						if ok1 && ok2 {
